@@ -462,7 +462,7 @@ func c13Invalid(c *Ctx, idx int) {
 func init() {
 	Register(&Property{
 		ID:            "C13",
-		Rule:          "arrays of records {id: original index, k: key} of lengths {0,1,2,3,11,12,13,14,20,50,200,1000,5000} with heavy key duplication (1..n/4 distinct keys), numeric keys in several spellings of one value (1, 1.0, 1e0, 10e-1), 34th-digit near-ties, string keys across Unicode planes; sort_by (plain, nested and scoped computed keys), sort, min/max, min_by/max_by judged by a direct oracle reading the unique ids: permutation, non-decreasing by exact value / code point, equal keys in original order, extremes extremal and taken from the input, input untouched; arrays with an offending element at every position (incl. single-element arrays) must raise invalid-type; key sequences also in structured orders (non-decreasing, non-increasing with ties, organ pipe, sawtooth, two runs) at lengths 2..257, numeric keys carried as json.Number, float64, int or decimal128;  non-trivial = each (query, array) pair; arrays longer than 12 with duplicates counted separately; joins stream: sort_by / max_by / min_by / sort over a root-anchored array with keys that read a per-element let variable (one call site evaluated 2..257 times on the identical array with different bindings), compared with the model",
+		Rule:          "arrays of records {id: original index, k: key} of lengths {0,1,2,3,11,12,13,14,20,50,200,1000,5000} with heavy key duplication (1..n/4 distinct keys), numeric keys in several spellings of one value (1, 1.0, 1e0, 10e-1), 34th-digit near-ties, string keys across Unicode planes; sort_by (plain, nested and scoped computed keys), sort, min/max, min_by/max_by judged by a direct oracle reading the unique ids: permutation, non-decreasing by exact value / code point, equal keys in original order, extremes extremal and taken from the input, input untouched; arrays with an offending element at every position (incl. single-element arrays) must raise invalid-type; key sequences also in structured orders (non-decreasing, non-increasing with ties, organ pipe, sawtooth, two runs) at lengths 2..257, numeric keys carried as json.Number, float64, int or decimal128;  non-trivial = each (query, array) pair; arrays longer than 12 with duplicates counted separately; joins stream: sort_by / max_by / min_by / sort over a root-anchored array with keys that read a per-element let variable (one call site evaluated 2..257 times on the identical array with different bindings), compared with the model; untouched stream: every directed copy-free way of handing an array to sort / sort_by / min / max / reverse / group_by (shared with C06/C07), twice per expression on one document, against a snapshot and a pristine copy",
 		MinNontrivial: 2000,
 		Streams: []Stream{
 			{Name: "sorted", N: func(c *Ctx) int { return tierN(c, 3000, 60000) }, Run: c13Run},
